@@ -1857,6 +1857,16 @@ TARGETS2 = {
         ("harness/vw_split.c", "vw_split16Get", "split16Get"),
         ("harness/vw_split.c", "vw_split16GetLen", "split16GetLen"),
         ("harness/vw_split.c", "vw_split16GetLenQuick", "split16GetLenQuick"),
+        ("harness/vw_split.c", "vw_splitFullLength", "splitFullLength"),
+        ("harness/vw_split.c", "vw_splitFullPut", "splitFullPut"),
+        ("harness/vw_split.c", "vw_splitFullGet", "splitFullGet"),
+        ("harness/vw_split.c", "vw_splitFullGetLen", "splitFullGetLen"),
+        ("harness/vw_split.c", "vw_splitFullGetLenQuick", "splitFullGetLenQuick"),
+        ("harness/vw_split.c", "vw_splitNZLength", "splitNZLength"),
+        ("harness/vw_split.c", "vw_splitNZPut", "splitNZPut"),
+        ("harness/vw_split.c", "vw_splitNZGet", "splitNZGet"),
+        ("harness/vw_split.c", "vw_splitNZGetLen", "splitNZGetLen"),
+        ("harness/vw_split.c", "vw_splitNZGetLenQuick", "splitNZGetLenQuick"),
     ],
     "CDelta": [
         ("import", "CExternal", "varintExternal.c:varintExternalLoadFromEncodingLittleEndian_:extLoadLE,"
